@@ -167,7 +167,11 @@ impl Walk {
 
     /// C++ lookup of `a::b::c` / `::a::b::c` from the current scope over the declarations made so far
     pub fn lookup(&self, path: &[String], absolute: bool) -> Vec<usize> {
-        let qualified = path.len() > 1;
+        self.lookup_as(path, absolute, path.len() > 1)
+    }
+
+    /// `qualified`: the first component is followed by `::` (only namespaces, structs and enums are considered for it)
+    fn lookup_as(&self, path: &[String], absolute: bool, qualified: bool) -> Vec<usize> {
         let first = &path[0];
         let pick = |s: usize| -> Vec<usize> {
             self.scopes[s]
@@ -213,7 +217,7 @@ impl Walk {
         let path: Vec<String> = id.identifiers.iter().map(|l| l.node.clone()).collect();
         let absolute = id.base == ast::ScopedIdentifierBase::Absolute;
         let found = self.lookup(&path, absolute);
-        let first = if path.len() > 1 { self.lookup(&path[..1], absolute) } else { Vec::new() };
+        let first = if path.len() > 1 { self.lookup_as(&path[..1], absolute, true) } else { Vec::new() };
         let res = if found.is_empty() { Res::Undeclared } else { Res::Decls(found.clone()) };
         self.evs.push(Ev::Use { kind, path, absolute, res, first, scope: self.cur, helper: self.helper > 0 });
         found
